@@ -381,11 +381,37 @@ func (w *evWorker) build() {
 			return c, nil
 		})
 	}
+	// the owner stops consumer 0: until it is deleted one unbonding period later the provider keeps its
+	// client, keys and parameters, so evidence is judged exactly as before; after the deletion the
+	// statement leaves the outcome open (no client any more) and nothing is judged
+	w.tab.Add("stop(c0)", func(n engine.Node) (engine.Node, []V) {
+		c := n.(*evNode).child()
+		if r := c.S.Deliver(env.MsgRemoveConsumer(p.Users[0].Addr.String(), "0")); r.Err != nil {
+			return nil, nil
+		}
+		w.stats.Count("consumer-stopped")
+		return c, nil
+	})
 	w.buildMisbehaviour()
+}
+
+// gone reports that the consumer the evidence is about has been deleted (don't-care from then on).
+func (w *evWorker) gone(x *evNode, cid string) bool {
+	if w.p.K.GetConsumerPhase(x.S.Ctx, cid) == providertypes.CONSUMER_PHASE_DELETED {
+		w.stats.Count("evidence-for-deleted-consumer(dont-care)")
+		return true
+	}
+	return false
 }
 
 func (w *evWorker) submitDV(x *evNode, name, cid, chain, key, mut string) (engine.Node, []V) {
 	p := w.p
+	if w.gone(x, cid) {
+		return nil, nil
+	}
+	if p.K.GetConsumerPhase(x.S.Ctx, cid) == providertypes.CONSUMER_PHASE_STOPPED {
+		w.stats.Count("dv:for-stopped-consumer")
+	}
 	now := x.S.Time()
 	ctx := x.S.Ctx
 	msg := w.dvMsg(cid, chain, w.keys[key], mut, now)
@@ -602,6 +628,9 @@ func (w *evWorker) buildMisbehaviour() {
 			ctx := x.S.Ctx
 			now := x.S.Time()
 			cid := "0"
+			if w.gone(x, cid) {
+				return nil, nil
+			}
 			clientID, _ := p.K.GetConsumerClientId(ctx, cid)
 			trusted := clienttypes.NewHeight(0, 10)
 			if cs, ok := p.PApp.IBCKeeper.ClientKeeper.GetClientState(ctx, clientID); ok {
